@@ -52,6 +52,19 @@ pub fn well_formed(text: &str, folds: &[(u64, u64)]) -> Result<(), String> {
     Ok(())
 }
 
+pub fn expected_folds(p: &RProgram, pr: &Printed, r: &Rendered) -> Vec<(u64, u64)> {
+    let mut exp = vec![];
+    for (di, d) in p.decls.iter().enumerate() {
+        if let RDecl::Proc { .. } = d {
+            let (a, b) = pr.decl_spans[di];
+            let start = lsptext::position(&r.text, r.tok_ranges[a].0).0 as u64;
+            let end = lsptext::position(&r.text, r.tok_ranges[b - 1].0).0 as u64;
+            exp.push((start, end));
+        }
+    }
+    exp
+}
+
 pub fn eval_program(p: &RProgram, pr: &Printed, r: &Rendered) -> Result<(), (String, String)> {
     let folds = fold_request(&r.text).map_err(|e| ("error".to_string(), e))?;
     let mut exp = vec![];
@@ -89,7 +102,7 @@ pub fn run(tier: Tier) -> Report {
                     if out.len() < 2 {
                         out.push(Failure {
                             key: format!("fold:{}:{:?}", kind, v.layout),
-                            case: json!({"text": r.text, "family": it.family}),
+                            case: json!({"text": r.text, "family": it.family, "expected": expected_folds(&it.program, &pr, &r)}),
                             detail,
                         });
                     }
